@@ -164,6 +164,10 @@ pub struct ThreadCtx<T: Payload> {
     held_r_owner: Option<Box<RH<T>>>,
     held_s: Option<(Pin<Box<SendFuture<'static, T>>>, usize)>,
     held_s_owner: Option<Box<SH<T>>>,
+    // scripted polling of a stream owned across steps: (stream, index of the open wait's event if any)
+    held_stream: Option<(Pin<Box<ReceiveStream<'static, T>>>, Option<usize>)>,
+    held_stream_owner: Option<Box<RH<T>>>,
+    pub last_waker_stream: usize,
     /// counting wakers for scripted polling; `last_waker` = index last supplied to the held future
     pub wakers: Vec<std::sync::Arc<WakeCell>>,
     pub last_waker_r: usize,
@@ -183,7 +187,7 @@ pub struct ThreadCtx<T: Payload> {
 
 impl<T: Payload> ThreadCtx<T> {
     pub fn new(th: u16, tag_lo: Tag, tag_hi: Tag) -> Self {
-        ThreadCtx { th, idx: 0, stream: None, stream_owner: None, held_r: None, held_r_owner: None, held_s: None, held_s_owner: None, wakers: (0..3).map(|i| WakeCell::new(100 + i, None)).collect(), last_waker_r: 0, last_waker_s: 0, senders: vec![], receivers: vec![], log: Vec::new(), next_tag: tag_lo, tag_end: tag_hi, pat: th as u64, status: None, keep_one: false }
+        ThreadCtx { th, idx: 0, stream: None, stream_owner: None, held_r: None, held_r_owner: None, held_s: None, held_s_owner: None, held_stream: None, held_stream_owner: None, last_waker_stream: 0, wakers: (0..3).map(|i| WakeCell::new(100 + i, None)).collect(), last_waker_r: 0, last_waker_s: 0, senders: vec![], receivers: vec![], log: Vec::new(), next_tag: tag_lo, tag_end: tag_hi, pat: th as u64, status: None, keep_one: false }
     }
     fn mk(&mut self) -> (T, Tag) {
         assert!(self.next_tag < self.tag_end, "thread {} ran out of tags", self.th);
@@ -708,6 +712,70 @@ impl<T: Payload> ThreadCtx<T> {
         self.log[k].t1 = now();
         self.senders.push(*self.held_s_owner.take().unwrap());
     }
+    /// Scripted stream: every wait of the stream (from the poll that starts it to the poll that returns
+    /// an item / the end, or to the drop of the stream) is ONE recorded event: `StreamNext` when it
+    /// completed, `ARecvDrop(200)`/Cancelled when the stream was dropped while that wait was pending.
+    /// Returns Ready(Some(tag)) for an item, Ready(None) for the end of the stream.
+    pub fn sstream_poll(&mut self, w: usize) -> Poll<Option<Tag>> {
+        if self.held_stream.is_none() {
+            let h = Box::new(self.receivers.pop().expect("receiver"));
+            let a: &'static AsyncReceiver<T> = unsafe { &*(h.asy() as *const AsyncReceiver<T>) };
+            self.held_stream = Some((Box::pin(a.stream()), None));
+            self.held_stream_owner = Some(h);
+        }
+        if self.held_stream.as_ref().unwrap().1.is_none() {
+            let idx = self.idx;
+            self.idx += 1;
+            self.log.push(Event { th: self.th, idx, op: Op::StreamNext, tag: None, t0: now(), t1: 0, res: Res::Cancelled(None), polls: 0, reg_t: None });
+            self.held_stream.as_mut().unwrap().1 = Some(self.log.len() - 1);
+        }
+        let (st, k) = self.held_stream.as_mut().unwrap();
+        let k = k.unwrap();
+        let wk = waker_of(&self.wakers[w]);
+        self.last_waker_stream = w;
+        payload::set_cur_op(self.log[k].opid());
+        let mut cx = Context::from_waker(&wk);
+        let r = st.as_mut().poll_next(&mut cx);
+        self.log[k].polls += 1;
+        let out = match r {
+            Poll::Pending => Poll::Pending,
+            Poll::Ready(x) => {
+                let (res, ret) = match x {
+                    Some(v) => {
+                        let r = Self::recvd(v);
+                        let t = match &r {
+                            Res::Val(t) | Res::Corrupt(t) => *t,
+                            _ => 0,
+                        };
+                        (r, Some(t))
+                    }
+                    None => (Res::NoneV, None),
+                };
+                self.log[k].res = res;
+                self.log[k].t1 = now();
+                Poll::Ready(ret)
+            }
+        };
+        payload::set_cur_op(0);
+        if out.is_ready() {
+            self.held_stream.as_mut().unwrap().1 = None;
+        }
+        out
+    }
+    pub fn sstream_drop(&mut self) {
+        if let Some((st, k)) = self.held_stream.take() {
+            if let Some(k) = k {
+                payload::set_cur_op(self.log[k].opid());
+                drop(st);
+                payload::set_cur_op(0);
+                self.log[k].op = Op::ARecvDrop(200);
+                self.log[k].t1 = now();
+            } else {
+                drop(st);
+            }
+            self.receivers.push(*self.held_stream_owner.take().unwrap());
+        }
+    }
     pub fn has_held_r(&self) -> bool {
         self.held_r.is_some()
     }
@@ -722,6 +790,7 @@ impl<T: Payload> ThreadCtx<T> {
     /// as its own recorded event (so the handle ledger is complete).
     pub fn finish(&mut self) {
         self.keep_one = false;
+        self.sstream_drop();
         if self.held_r.is_some() {
             self.rfut_drop();
         }
